@@ -1,6 +1,7 @@
 """C16 — communicator (frappy/io.py StringIO / BytesIO over frappy/lib/asynconn.py AsynTcp): implementation driver (real
 modules, real caller threads and the real poll thread under harness/dsched.py, scripted fake socket in virtual time),
 case encoder, direct oracle, generators"""
+import math
 import random
 
 from harness import gal
@@ -12,7 +13,7 @@ PROPERTIES_V = 'theories/C16/Properties.v'
 IMPORTS = 'Require Import FV.Gen.C16 FV.C16.Model FV.C16.Run.\nOpen Scope Z_scope.'
 CASE_TYPE = 'case'
 CHECK = 'check_case'
-SHARD_SIZE = 120
+SHARD_SIZE = 100
 TICK = 8               # ticks per second: every delay / time-out / interval is a multiple of 1/8 s
 T0 = 1000.0            # virtual start time
 SLICE = 8              # AsynConn.timeout = 1 s: one receive slice
@@ -64,7 +65,8 @@ class _Log:
 
 
 def _ticks(t):
-    v = (t - T0) * TICK
+    """absolute virtual time in ticks"""
+    v = t * TICK
     r = round(v)
     if abs(v - r) > 1e-9:
         raise ValueError(f'time {t} is not on the tick grid')
@@ -104,7 +106,7 @@ def run_case(case):
                 for x in op[1]:
                     exch[x['id']] = x
     refuse = list(case.get('refuse', []))
-    log = {'connects': [], 'sends': [], 'chunks': [], 'recvs': [], 'cbs': [], 'ann': [], 'polls': [], 'closed': []}
+    log = {'connects': [], 'sends': [], 'chunks': [], 'recvs': [], 'cbs': [], 'ann': [], 'polls': [], 'closed': [], 'ev': []}
     conns = []
 
     def who():
@@ -135,7 +137,8 @@ def run_case(case):
             txt = data.decode('latin-1')
             body = txt[:-len(eol)] if line and txt.endswith(eol.decode('latin-1')) else txt
             xid = int(body[1:]) if body[:1] == 'c' and body[1:].isdigit() else -1
-            log['sends'].append([self.cid, _ticks(s.now), who(), xid, list(data)])
+            log['sends'].append([self.cid, _ticks(s.now), who(), xid, list(data), len(log['chunks'])])
+            log['ev'].append(['send', who(), xid, _ticks(s.now), self.cid])
             x = exch.get(xid)
             s.annotate(x=xid)
             if x is not None:
@@ -147,8 +150,10 @@ def run_case(case):
         def recv(self, n):
             if self.local_closed:
                 raise OSError('recv on closed socket')
+            kind = 'recv'
             if self.peeked and self.ready():
                 self.peeked = False     # called from flush_recv right after select said readable: not a scheduling point
+                kind = 'flush'
             else:
                 wait = 1.0
                 if self.queue and self.queue[0][0] > s.now:
@@ -158,13 +163,16 @@ def run_case(case):
                     # woken early (at the arrival of a chunk that is not the head any more) cannot happen: only the
                     # lock holder sends
                     log['recvs'].append([self.cid, _ticks(s.now), who(), 'timeout'])
+                    log['ev'].append(['recv', who(), 'timeout', _ticks(s.now), self.cid])
                     raise real_socket.timeout('timed out')
             arrival, data = self.queue[0]
             if data is None:
                 log['recvs'].append([self.cid, _ticks(s.now), who(), 'eof'])
+                log['ev'].append([kind, who(), 'eof', _ticks(s.now), self.cid])
                 return b''
             self.queue.pop(0)
             log['recvs'].append([self.cid, _ticks(s.now), who(), list(data)])
+            log['ev'].append([kind, who(), 'data', _ticks(s.now), self.cid])
             return data
 
         def shutdown(self, how):
@@ -188,6 +196,7 @@ def run_case(case):
             s.switch('connect')
             refused = refuse.pop(0) if refuse else False
             log['connects'].append([_ticks(s.now), who(), not refused])
+            log['ev'].append(['connect', who(), not refused, _ticks(s.now)])
             s.annotate(ok=not refused)
             if refused:
                 raise ConnectionRefusedError('refused')
@@ -204,8 +213,25 @@ def run_case(case):
             return ready, [], []
 
     class QuietEvent(dsched.Event):
+        """trigger event of the poll thread: set() is no scheduling point; wait() ends on the tick grid"""
         def set(self):
             self.flag = True
+
+        def wait(self, timeout=None):
+            if timeout is not None:
+                timeout = max(0.0, math.ceil(timeout * TICK - 1e-6) / TICK)
+            return dsched.Event.wait(self, timeout)
+
+    class PollClock:
+        """the clock seen by frappy.modulebase (poll thread): a hair later than the scheduler's clock, so that a wait
+        that ends exactly at its deadline is followed by `now > due time` (in real time the clock always moves on; with
+        an exact virtual clock the loop `while modules:` would spin at `now == last_main + interval`)"""
+        @staticmethod
+        def time():
+            return s.now + 2.0 ** -20
+
+        def __getattr__(self, name):
+            return getattr(s.time_module, name)
 
     class _Dispatcher:
         def announce_update(self, moduleobj, pobj):
@@ -223,7 +249,7 @@ def run_case(case):
     try:
         fio.time = s.time_module
         fa.time = s.time_module
-        mb.time = s.time_module
+        mb.time = PollClock()
         fa.socket = FakeSocketModule
         fa.select = FakeSelectModule
         cfg = {'description': 'communicator under test', 'uri': 'tcp://dev:1234'}
@@ -250,6 +276,7 @@ def run_case(case):
         def mk_cb(key, kind):
             def cb():
                 log['cbs'].append([_ticks(s.now), key, who()])
+                log['ev'].append(['cb', who(), key, _ticks(s.now)])
                 if kind == 'E':
                     raise RuntimeError('callback failed')
                 return {'T': True, 'F': False, 'N': None}[kind]
@@ -262,6 +289,7 @@ def run_case(case):
             # the poll thread registers its trigger_all closure: wrap it to log the call, keep the real function
             def logged():
                 log['cbs'].append([_ticks(s.now), TRIGGER_KEY, who()])
+                log['ev'].append(['cb', who(), TRIGGER_KEY, _ticks(s.now)])
                 return func()
             orig_register(name, logged)
         io.registerReconnectCallback = register
@@ -280,9 +308,10 @@ def run_case(case):
                 return None
             return list(r.encode('latin-1')) if isinstance(r, str) else list(r)
 
-        def call(i, op):
+        def call(i, j, op):
             kind = op[0]
             rec = {'op': kind, 't0': _ticks(s.now)}
+            log['ev'].append(['call', f'c{i}', j, _ticks(s.now)])
             try:
                 if kind == 'pause':
                     s.time_module.sleep(op[1] / TICK)
@@ -316,12 +345,13 @@ def run_case(case):
                 rec['res'] = 'other'
                 rec['exc'] = type(e).__name__
             rec['t1'] = _ticks(s.now)
+            log['ev'].append(['ret', f'c{i}', j, _ticks(s.now)])
             rec['conn_after'] = bool(io.is_connected)
             results[i].append(rec)
 
         def caller(i):
-            for op in case['threads'][i]:
-                call(i, op)
+            for j, op in enumerate(case['threads'][i]):
+                call(i, j, op)
 
         poll_state = {'started': None}
 
@@ -347,8 +377,8 @@ def run_case(case):
             'status': res.status, 'main_error': res.error, 'trace': trace, 'decisions': res.decisions,
             'results': results, 'log': log, 'thread_errors': res.thread_errors, 'now': _ticks(res.now),
             'connected': bool(io.is_connected), 'has_conn': io._conn is not None, 'nconn': len(conns),
-            'cbkeys': sorted(int(k[1:]) if k[0] == 'k' else TRIGGER_KEY for k in io._reconnectCallbacks),
-            'last_error': io._last_error is not None, 'last_attempt': _ticks(io._last_connect_attempt) if io._last_connect_attempt else None,
+            'cbkeys': [int(k[1:]) if k[0] == 'k' else TRIGGER_KEY for k in io._reconnectCallbacks],
+            'last_error': io._last_error is not None, 'last_attempt': _ticks(io._last_connect_attempt),
             'blocked_at_end': res.blocked_at_end, 'poll_started': poll_state['started'],
         }
     finally:
@@ -360,3 +390,546 @@ def run_case(case):
                 io.polledModules.clear()
             except Exception:
                 pass
+
+
+# ------------------------------------------------------------------ encoding into Gallina
+LABELS = {'start': 'LStart', 'acquire:access': 'LAccess', 'connect': 'LConnect', 'acquire:lock': 'LLock', 'send': 'LSend',
+          'recv': 'LRecv', 'sleep': 'LSleep', 'wait:trigger': 'LWait'}
+CBK = {'T': 'CbTrue', 'F': 'CbFalse', 'N': 'CbNone', 'E': 'CbRaise'}
+
+
+def enc_tid(name):
+    return 'TP' if name == 'poll' else f'(TC {gal.nat(int(name[1:]))})'
+
+
+def enc_bytes(bs):
+    return gal.lst(list(bs), gal.N)
+
+
+def enc_exch(x, noreply=False):
+    emit = gal.lst(x['emit'], lambda e: f'({gal.z(e[0])}, {enc_bytes(e[1])})')
+    return ('{| x_id := %s; x_emit := %s; x_close := %s; x_n := %s; x_delay := %s; x_noreply := %s |}' % (
+        gal.nat(x['id']), emit, gal.option(x.get('close'), gal.z), gal.nat(x.get('n', 0)), gal.z(x.get('delay', 0)),
+        gal.boolean(noreply or bool(x.get('noreply', False)))))
+
+
+def enc_op(op):
+    if op[0] == 'pause':
+        return f'(OPause {gal.z(op[1])})'
+    if op[0] == 'comm':
+        return f'(OSingle {enc_exch(dict(op[1], noreply=False))})'
+    if op[0] == 'write':
+        return f'(OSingle {enc_exch(op[1], noreply=True)})'
+    if op[0] == 'multi':
+        return f'(OMulti {gal.lst(op[1], enc_exch)})'
+    raise ValueError(op[0])
+
+
+def enc_outcome(rec):
+    if rec['res'] == 'ok':
+        return f"(ROk {gal.lst(rec['replies'], enc_bytes)})"
+    if rec['res'] == 'commfail':
+        return 'RFail'
+    raise ValueError(f"outcome outside the model: {rec.get('exc')}")
+
+
+def enc_mode(case):
+    if case['mode'] == 'line':
+        return f"(MLine {enc_bytes(case.get('eol', chr(10)).encode('latin-1'))})"
+    return 'MBytes'
+
+
+def encode(case, obs):
+    if obs['status'] != 'ok' or obs['main_error'] or obs['thread_errors']:
+        raise ValueError(f"run did not complete: {obs['status']} {obs['main_error']} {obs['thread_errors']}")
+    trace = obs['trace']
+    nxt_after = {}
+    last = obs['blocked_at_end'].get('poll') == 'acquire:access'
+    for k in range(len(trace) - 1, -1, -1):
+        if trace[k][0] == 'poll':
+            nxt_after[k] = last
+            last = trace[k][1] == 'acquire:access'
+    steps = []
+    for k, (t, lab, now, info) in enumerate(trace):
+        if lab not in LABELS:
+            raise ValueError(f'label outside the model: {lab}')
+        steps.append(f'({enc_tid(t)}, {LABELS[lab]}, {gal.z(now)}, {gal.boolean(nxt_after.get(k, False))})')
+    log = obs['log']
+    outs = gal.lst(obs['results'], lambda rs: gal.lst([r for r in rs if r['op'] != 'pause'], enc_outcome))
+    sends = gal.lst(log['sends'], lambda e: f'({gal.nat(int(e[2][1:]))}, {gal.nat(e[3])}, {gal.nat(e[0] + 1)})')
+    return ('{| c_mode := %s; c_timeout := %s; c_interval := %s; c_progs := %s; c_refuse := %s; c_cbs := %s; '
+            'c_poller := %s; c_trace := [%s]; c_outs := %s; c_sends := %s; c_cblog := %s; c_ann := %s; '
+            'c_connected := %s; c_conn := %s; c_nconn := %s; c_cbkeys := %s; c_lasterr := %s; c_lastatt := %s |}' % (
+                enc_mode(case), gal.z(case['timeout']), gal.z(case['interval']),
+                gal.lst(case['threads'], lambda p: gal.lst(p, enc_op)), gal.lst(case.get('refuse', []), gal.boolean),
+                gal.lst(case.get('cbs', []), lambda c: f'({gal.nat(c[0])}, {CBK[c[1]]})'),
+                gal.boolean(bool(case.get('poller'))), '; '.join(steps), outs, sends,
+                gal.lst([e[1] for e in log['cbs']], gal.nat), gal.lst([e[1] for e in log['ann'] if not e[2]], gal.boolean),
+                gal.boolean(obs['connected']), gal.boolean(obs['has_conn']), gal.nat(obs['nconn']),
+                gal.lst(obs['cbkeys'], gal.nat), gal.boolean(obs['last_error']), gal.z(obs['last_attempt'])))
+
+
+def model_result_term(case, obs):
+    return f'model_result ({encode(case, obs)})'
+
+
+# ------------------------------------------------------------------ generators
+def _cuts(rng, data, maxparts=3):
+    """split data into 1..maxparts non-empty chunks"""
+    n = len(data)
+    k = min(n, rng.choice([1, 1, 2, 2, 3][:2 + maxparts]))
+    if k <= 1 or n < 2:
+        return [data]
+    pos = sorted(rng.sample(range(1, n), k - 1))
+    return [data[a:b] for a, b in zip([0] + pos, pos + [n])]
+
+
+def reply_bytes(case_mode, eol, xid):
+    if case_mode == 'line':
+        return f'r{xid}'.encode() + eol.encode('latin-1')
+    return f'R{xid:03d}'.encode()
+
+
+def rand_exch(rng, mode, eol, timeout, xid, in_multi):
+    own = reply_bytes(mode, eol, xid)
+    x = {'id': xid, 'emit': [], 'close': None, 'n': 4, 'delay': 0, 'noreply': False, 'kind': 'normal'}
+    r = rng.random()
+
+    def chunks(data, d0):
+        out = []
+        d = d0
+        for part in _cuts(rng, data):
+            out.append([d, list(part)])
+            d += rng.choice([0, 0, 1, 2])
+        return out
+    d0 = rng.choice([0, 0, 1, 1, 2, 4])
+    junk = (f'g{xid}'.encode() + eol.encode('latin-1')) if mode == 'line' else b'GG'
+    if r < 0.5:
+        x['emit'] = chunks(own, d0)
+    elif r < 0.58:
+        x['kind'] = 'extra-after'
+        x['emit'] = chunks(own + (b'zz' if mode == 'line' else b'ZZZ'), d0)
+    elif r < 0.65:
+        x['kind'] = 'garbage-before'
+        x['emit'] = chunks(junk + own, d0)
+    elif r < 0.73:
+        x['kind'] = 'unsolicited-later'
+        x['emit'] = chunks(own, d0) + [[rng.choice([6, 10, 18, 30]), list(junk)]]
+    elif r < 0.81:
+        x['kind'] = 'late'
+        x['emit'] = chunks(own, timeout + rng.choice([1, 4, 9]))
+    elif r < 0.86:
+        x['kind'] = 'silent'
+    elif r < 0.9:
+        x['kind'] = 'partial'
+        x['emit'] = [[d0, list(own[:max(1, len(own) // 2)])]]
+    else:
+        x['kind'] = 'close'
+        how = rng.random()
+        if how < 0.35:
+            x['close'] = rng.choice([0, 1, 3])
+        elif how < 0.6:
+            x['emit'] = [[d0, list(own[:max(1, len(own) // 2)])]]
+            x['close'] = d0 + rng.choice([0, 1])
+        elif how < 0.85:
+            x['emit'] = chunks(own, d0)
+            x['close'] = x['emit'][-1][0] + rng.choice([0, 1, 5])
+        else:
+            x['close'] = timeout + 2
+    if in_multi:
+        x['delay'] = rng.choice([0, 0, 2, 4, 8])
+        if mode == 'line' and rng.random() < 0.25:
+            x['noreply'] = True
+    return x
+
+
+def rand_sched(rng):
+    r = rng.random()
+    if r < 0.35:
+        return {'kind': 'seed', 'seed': rng.randrange(1 << 30), 'stick': 0.0}
+    if r < 0.75:
+        return {'kind': 'seed', 'seed': rng.randrange(1 << 30), 'stick': rng.choice([0.5, 0.8, 0.9])}
+    k = rng.choice([1, 2, 2, 3])
+    return {'kind': 'preempt', 'points': {str(rng.randrange(2, 60)): rng.randrange(6) for _ in range(k)}}
+
+
+def rand_case(rng):
+    mode = 'line' if rng.random() < 0.62 else 'bytes'
+    eol = rng.choice(['\n', '\n', '\r\n', '\r\n', ';'])
+    timeout = rng.choice([8, 16, 16, 24])
+    interval = rng.choice([8, 16, 32, 80])
+    n = rng.choice([2, 2, 3, 3, 4])
+    ids = iter(range(1, 1000))
+    threads = []
+    for _ in range(n):
+        prog = []
+        for _ in range(rng.choice([1, 2, 2, 3, 4])):
+            r = rng.random()
+            if r < 0.5:
+                prog.append(['comm', rand_exch(rng, mode, eol, timeout, next(ids), False)])
+            elif r < 0.6 and mode == 'line':
+                prog.append(['write', rand_exch(rng, mode, eol, timeout, next(ids), False)])
+            elif r < 0.85:
+                prog.append(['multi', [rand_exch(rng, mode, eol, timeout, next(ids), True)
+                                       for _ in range(rng.choice([1, 2, 2, 3]))]])
+            else:
+                prog.append(['pause', rng.choice([1, 4, 8, 20, 40])])
+        threads.append(prog)
+    refuse = []
+    r = rng.random()
+    if r < 0.2:
+        refuse = [False] + [True] * rng.choice([1, 1, 2, 3])
+    elif r < 0.3:
+        refuse = [True] * rng.choice([1, 2])
+    elif r < 0.35:
+        refuse = [False, False, True]
+    cbs = [[k, rng.choice('TTFNE')] for k in range(rng.choice([0, 1, 2, 3]))]
+    poller = rng.random() < 0.5
+    if rng.random() < 0.7:
+        # let one thread (or the poll thread) establish the connection first
+        first = rng.randrange(n)
+        for i, prog in enumerate(threads):
+            if i != first or poller:
+                prog.insert(0, ['pause', rng.choice([1, 1, 2])])
+    case = {'mode': mode, 'timeout': timeout, 'interval': interval, 'refuse': refuse, 'cbs': cbs, 'poller': poller,
+            'threads': threads, 'sched': rand_sched(rng), 'tail': rng.choice([0, 0, 40, 100]) if poller else 0}
+    if mode == 'line':
+        case['eol'] = eol
+    return case
+
+
+def gen_cases(seed, tier):
+    rng = random.Random(seed * 1000003 + 16)
+    n = {'quick': 2200, 'thorough': 25000, 'search': 25000}[tier]
+    return [rand_case(rng) for _ in range(n)]
+
+
+# ------------------------------------------------------------------ direct oracle: the property on the observation
+# (written from the property text; uses only what the fake device saw: bytes written, chunks scheduled with their
+# arrival times, order of socket operations, and what every call returned / raised and when)
+def _first_frame(line, eol, n, buf):
+    if line:
+        k = buf.find(eol)
+        return None if k < 0 else buf[:k]
+    return bytes(buf[:n]) if len(buf) >= n else None
+
+
+def _exchanges(op):
+    if op[0] in ('comm', 'write'):
+        return [dict(op[1], noreply=(op[0] == 'write'))]
+    if op[0] == 'multi':
+        return op[1]
+    return []
+
+
+def oracle(case, obs):
+    fails = []
+
+    def fail(cls, what):
+        fails.append({'class': cls, 'what': what})
+
+    if obs['status'] != 'ok' or obs['main_error'] or obs['thread_errors']:
+        fail('run-' + obs['status'], f"the run did not complete: {obs['status']} {obs['main_error']} "
+             f"{obs['thread_errors']} blocked: {obs['blocked_at_end']}")
+        return fails
+    line = case['mode'] == 'line'
+    eol = case.get('eol', '\n').encode('latin-1')
+    timeout, interval = case['timeout'], case['interval']
+    log = obs['log']
+    ev = log['ev']
+    chunks = log['chunks']
+    sends = log['sends']
+    send_by_x = {}
+    for k, sd in enumerate(sends):
+        if sd[3] in send_by_x:
+            fail('command-sent-twice', f'command c{sd[3]} was written twice')
+        send_by_x[sd[3]] = k
+    # ---- bytes written are exactly the command (+ end of line)
+    for cid, ts, w, xid, data, mark in sends:
+        want = cmd_text(xid).encode() + (eol if line else b'')
+        if bytes(data) != want:
+            fail('wrong-bytes-sent', f'{w} wrote {bytes(data)!r} for command c{xid}, expected {want!r}')
+    # ---- connection life times as the device sees them
+    conn_start = [c[0] for c in log['connects'] if c[2]]
+    eof_at = {}
+    for cid, arr, data, origin in chunks:
+        if data is None:
+            eof_at[cid] = min(arr, eof_at.get(cid, arr))
+
+    def post_send_stream(k):
+        """chunks that arrive on the connection after send k: scheduled by this command, or scheduled earlier with a
+        later arrival time; in arrival order"""
+        cid, ts, w, xid, data, mark = sends[k]
+        nxt = len(chunks)
+        for sd in sends[k + 1:]:
+            if sd[0] == cid:
+                nxt = sd[5]
+                break
+        cand = [(c[1], i, c[2]) for i, c in enumerate(chunks)
+                if c[0] == cid and ((mark <= i < nxt) or (i < mark and c[1] > ts))]
+        return sorted(cand)
+
+    def expected(k, x, upto):
+        """('frame', bytes, arrival) | ('eof', None, arrival) | ('none', None, last arrival or None)"""
+        buf = b''
+        last = None
+        for arr, i, data in post_send_stream(k):
+            if arr > upto:
+                break
+            last = arr
+            if data is None:
+                return 'eof', None, arr
+            buf += bytes(data)
+            f = _first_frame(line, eol, x['n'], buf)
+            if f is not None:
+                return 'frame', f, arr
+        return 'none', None, last
+
+    ev_index = {}
+    for n, e in enumerate(ev):
+        if e[0] in ('call', 'ret'):
+            ev_index[(e[0], e[1], e[2])] = n
+    for i, prog in enumerate(case['threads']):
+        me = f'c{i}'
+        for j, op in enumerate(prog):
+            rec = obs['results'][i][j]
+            if rec['res'] == 'other':
+                fail('wrong-exception', f"{me} op {j} ({op[0]}) raised {rec['exc']}, not a communication error")
+            xs = _exchanges(op)
+            if not xs:
+                continue
+            a, b = ev_index[('call', me, j)], ev_index[('ret', me, j)]
+            inner = ev[a:b + 1]
+            my_sends = [n for n in range(a, b + 1) if ev[n][0] == 'send' and ev[n][1] == me]
+            sent = [x for x in xs if x['id'] in send_by_x]
+            # ---- atomicity: from the first write of the call to its return nobody else touches the connection
+            if my_sends:
+                for n in range(my_sends[0], b + 1):
+                    e = ev[n]
+                    if e[0] in ('send', 'recv', 'flush') and e[1] != me:
+                        fail('transaction-interleaved', f"{e[1]} did {e[0]} at {e[3]} inside the "
+                             f"{'transaction' if op[0] == 'multi' else 'request/reply'} of {me} (op {j})")
+                        break
+            # ---- order of the commands inside a transaction
+            if [x['id'] for x in sent] != [x['id'] for x in xs[:len(sent)]]:
+                fail('transaction-order', f'{me} op {j}: commands written out of order')
+            # ---- delays of a transaction
+            if op[0] == 'multi':
+                for q, x in enumerate(sent):
+                    if not x['delay']:
+                        continue
+                    n0 = my_sends[q]
+                    if q + 1 < len(sent):
+                        n1 = my_sends[q + 1]
+                    elif rec['res'] == 'ok':
+                        n1 = b
+                    else:
+                        continue
+                    done = ev[n0][3]
+                    for n in range(n0, n1):
+                        if ev[n][0] == 'recv' and ev[n][1] == me:
+                            done = ev[n][3]
+                    if ev[n1][3] < done + x['delay']:
+                        fail('delay-not-honoured', f"{me} op {j}: command c{x['id']} was finished at {done}, its delay is "
+                             f"{x['delay']} ticks, but the transaction went on at {ev[n1][3]}")
+            # ---- replies: the first frame completed by data arriving after the command was written
+            if rec['res'] == 'ok':
+                if len(sent) != len(xs):
+                    fail('command-not-sent', f'{me} op {j} returned although a command was never written')
+                    continue
+                want_n = [x for x in xs if not x.get('noreply')]
+                if len(rec['replies']) != len(want_n):
+                    fail('wrong-reply-count', f"{me} op {j}: {len(rec['replies'])} replies for {len(want_n)} queries")
+                    continue
+                for x, r in zip(want_n, rec['replies']):
+                    kind, f, arr = expected(send_by_x[x['id']], x, rec['t1'])
+                    if kind != 'frame' or (r is None) or bytes(r) != f:
+                        fail('wrong-reply', f"{me} op {j}: command c{x['id']} written at {sends[send_by_x[x['id']]][1]} "
+                             f"returned {None if r is None else bytes(r)!r}; the first frame arriving after the write is "
+                             f"{f!r} ({kind})")
+                    else:
+                        bound = max(sends[send_by_x[x['id']]][1] + timeout,
+                                    max([c[0] for c in post_send_stream(send_by_x[x['id']]) if c[0] < arr], default=0)) + SLICE
+                        if arr > bound:
+                            fail('timeout-exceeded', f"{me} op {j}: the reply to c{x['id']} was accepted at {arr}, later than "
+                                 f"its time-out allows ({bound})")
+            elif rec['res'] == 'commfail':
+                last = sent[-1] if sent else None
+                in_time = False
+                if last is not None and not last.get('noreply'):
+                    k = send_by_x[last['id']]
+                    ts = sends[k][1]
+                    kind, f, arr = expected(k, last, ts + timeout)
+                    in_time = kind == 'frame'
+                    if not in_time:
+                        seen = [c[0] for c in post_send_stream(k) if c[0] <= rec['t1']]
+                        bound = max([ts + timeout] + seen) + SLICE
+                        if rec['t1'] > bound:
+                            fail('timeout-exceeded', f"{me} op {j}: command c{last['id']} written at {ts} failed only at "
+                                 f"{rec['t1']} (time-out {timeout}, bound {bound})")
+                if last is None or in_time or last.get('noreply'):
+                    # the call failed although everything it wrote was answered in time: it must have failed before
+                    # writing its next command, which is justified only if no live connection existed
+                    if len(sent) == len(xs) and last is not None:
+                        fail('reply-lost', f"{me} op {j}: command c{last['id']} was answered in time but the call failed")
+                    else:
+                        t0, t1 = rec['t0'], rec['t1']
+                        # connections established (event order) before the call started, not ended for the device
+                        # by the time the call returned, and not replaced meanwhile
+                        conn_ev = [n for n, e in enumerate(ev) if e[0] == 'connect' and e[2]]
+                        cur = [cid for cid, n in enumerate(conn_ev) if n < a]
+                        live = bool(cur) and eof_at.get(cur[-1], 1 << 60) > t1 and \
+                            not any(a <= n <= b for n in conn_ev)
+                        refused_now = any(e[0] == 'connect' and not e[2] and e[1] == me for e in inner)
+                        if live and not refused_now:
+                            fail('spurious-failure', f'{me} op {j} failed at {t1} although the connection was up from {t0}')
+    # ---- connection state visible
+    for e in ev:
+        if e[0] in ('recv', 'flush') and e[2] == 'eof':
+            if not any(a[0] == e[3] and a[1] is False and not a[2] and a[3] == e[1] for a in log['ann']):
+                fail('state-not-visible', f'{e[1]} saw the end of the stream at {e[3]} but is_connected = False was not announced')
+        if e[0] == 'connect' and e[2]:
+            if not any(a[0] == e[3] and a[1] is True and not a[2] and a[3] == e[1] for a in log['ann']):
+                fail('state-not-visible', f'{e[1]} connected at {e[3]} but is_connected = True was not announced')
+    for i, prog in enumerate(case['threads']):
+        for j, op in enumerate(prog):
+            a, b = ev_index.get(('call', f'c{i}', j)), ev_index.get(('ret', f'c{i}', j))
+            if a is not None and b is not None:
+                if any(e[0] in ('recv', 'flush') and e[2] == 'eof' and e[1] == f'c{i}' for e in ev[a:b]) \
+                        and obs['results'][i][j]['conn_after']:
+                    fail('state-not-visible', f'c{i} op {j} hit the end of the stream but is_connected is still True')
+    if obs['connected'] != obs['has_conn']:
+        fail('state-not-visible', f"is_connected = {obs['connected']} but the connection object is "
+             f"{'present' if obs['has_conn'] else 'gone'}")
+    # ---- reconnect attempts made by calls (check_connection) respect the reconnect interval
+    att = [c[0] for c in log['connects'] if c[1].startswith('c')]
+    for t_a, t_b in zip(att, att[1:]):
+        if t_b - t_a < interval:
+            fail('reconnect-rate', f'calls tried to reconnect at {t_a} and again at {t_b}, reconnect interval {interval}')
+            break
+    # ---- reconnect callbacks
+    kinds = dict((k, v) for k, v in case.get('cbs', []))
+    ran_before = set()
+    had_conn = False
+    err_recorded = False
+    last_recv = {}
+    n = 0
+    while n < len(ev):
+        e = ev[n]
+        if e[0] in ('recv', 'flush'):
+            last_recv[e[1]] = e[2]
+        elif e[0] == 'send':
+            last_recv[e[1]] = None
+        elif e[0] == 'ret':
+            i, j = int(e[1][1:]), e[2]
+            if obs['results'][i][j]['res'] != 'ok' and last_recv.get(e[1]) == 'timeout':
+                err_recorded = True
+            last_recv[e[1]] = None
+        elif e[0] == 'cb':
+            fail('callback-outside-reconnect', f'callback {e[2]} ran at {e[3]} without a successful connect')
+        elif e[0] == 'connect' and not e[2]:
+            err_recorded = True
+        elif e[0] == 'connect' and e[2]:
+            group = []
+            while n + 1 < len(ev) and ev[n + 1][0] == 'cb':
+                n += 1
+                group.append(ev[n][2])
+            if len(set(group)) != len(group):
+                fail('callback-ran-twice', f'reconnect at {e[3]}: callbacks {group}')
+            if had_conn:
+                need = [k for k, v in kinds.items() if v == 'T' or k not in ran_before]
+                poller = bool(case.get('poller'))
+                if not group and (need or (poller and TRIGGER_KEY not in ran_before)):
+                    fail('callbacks-not-run' if err_recorded else 'callbacks-not-run-after-clean-disconnect',
+                         f'reconnect at {e[3]} by {e[1]}: no reconnect callback ran (registered: {need}'
+                         f"{' + poll trigger' if poller else ''})")
+                elif any(k not in group for k in need):
+                    fail('callback-missing', f'reconnect at {e[3]}: callbacks {[k for k in need if k not in group]} did not run')
+                elif poller and TRIGGER_KEY not in group:
+                    fail('polling-not-retriggered-after-first' if TRIGGER_KEY in ran_before else 'polling-not-retriggered',
+                         f'reconnect at {e[3]} by {e[1]}: the poll thread was not re-triggered')
+            if group:
+                err_recorded = True
+            ran_before.update(group)
+            had_conn = True
+        n += 1
+    return fails
+
+
+FINDING_CLASSIFIERS = {
+    # read_is_connected runs the callbacks only `if self._last_error:`; after a clean disconnect (ConnectionClosed ->
+    # closeConnection) nothing ever stored an error text, so the first reconnect is silent
+    'callbacks_skipped_after_clean_disconnect':
+        lambda case, obs, f: f['class'] == 'callbacks-not-run-after-clean-disconnect',
+    # trigger_all returns None, callCallbacks removes every callback whose result is falsy
+    'trigger_callback_dropped':
+        lambda case, obs, f: f['class'] == 'polling-not-retriggered-after-first' and bool(case.get('poller'))
+        and TRIGGER_KEY not in obs['cbkeys'],
+}
+
+
+def nontrivial_key(case, obs):
+    if obs['status'] != 'ok':
+        return None
+    log = obs['log']
+    if len(log['sends']) < 2 and all(c[2] for c in log['connects']) and not any(c[2] is None for c in log['chunks']):
+        return None
+    return repr((case['threads'], case['mode'], [(t, l) for t, l, _, _ in obs['trace']]))
+
+
+def outcome_labels(case, obs):
+    labs = {case['mode']}
+    log = obs['log']
+    for rs in obs['results']:
+        for r in rs:
+            if r['op'] != 'pause':
+                labs.add(f"{r['op']}:{r['res']}")
+    if any(not c[2] for c in log['connects']):
+        labs.add('connect-refused')
+    if sum(1 for c in log['connects'] if c[2]) > 1:
+        labs.add('reconnected')
+    if any(c[1] == 'poll' and c[2] for c in log['connects'][1:]):
+        labs.add('reconnected-by-poller')
+    if log['cbs']:
+        labs.add('callbacks-ran')
+    if any(e[0] == 'flush' and e[2] == 'data' for e in log['ev']):
+        labs.add('stale-data-flushed')
+    if any(e[2] == 'eof' for e in log['ev'] if e[0] in ('recv', 'flush')):
+        labs.add('disconnect-detected')
+    if any(e[0] == 'recv' and e[2] == 'timeout' for e in log['ev']):
+        labs.add('recv-slice-timeout')
+    if case.get('poller'):
+        labs.add('with-poll-thread')
+    return sorted(labs)
+
+
+def sample_repr(case, obs):
+    return {'case': case, 'results': obs['results'], 'sends': obs['log']['sends'], 'connects': obs['log']['connects'],
+            'steps': [f'{t}:{lab}@{now}' for t, lab, now, _ in obs['trace']][:60]}
+
+
+def extra_evidence(cases, obs):
+    ok = [o for o in obs if '__harness_error__' not in o]
+    return {'schedule_steps_total': sum(len(o['trace']) for o in ok),
+            'max_steps_in_a_run': max((len(o['trace']) for o in ok), default=0),
+            'commands_written_total': sum(len(o['log']['sends']) for o in ok),
+            'connection_attempts_total': sum(len(o['log']['connects']) for o in ok)}
+
+
+def shrink(case):
+    threads = case['threads']
+    if case['sched']['kind'] == 'explicit':
+        return
+    for i in range(len(threads) - 1, -1, -1):
+        if len(threads) > 1:
+            yield dict(case, threads=threads[:i] + threads[i + 1:])
+    for i, prog in enumerate(threads):
+        for j in range(len(prog) - 1, -1, -1):
+            if len(prog) > 1:
+                yield dict(case, threads=threads[:i] + [prog[:j] + prog[j + 1:]] + threads[i + 1:])
+    if case.get('poller'):
+        yield dict(case, poller=False, tail=0)
+    if case.get('cbs'):
+        yield dict(case, cbs=case['cbs'][:-1])
+    if case['sched']['kind'] != 'np':
+        yield dict(case, sched={'kind': 'np'})
